@@ -32,6 +32,7 @@ import re
 import socket
 from base64 import b64encode
 from urllib import parse as urlparse
+from http import client as httplib
 
 import gevent
 
@@ -96,6 +97,26 @@ class HttpRelayClient(RelayPoolClient):
         if not self.conn:
             self._new_conn()
             assert self.conn is not None
+        try:
+            self._send_request(method, result, envelope)
+        except gevent.Timeout:
+            reply = Reply('450', '4.4.2 Connection timed out')
+            self._fail_request(result, reply)
+        except (socket.error, httplib.HTTPException):
+            logging.log_exception(__name__)
+            reply = Reply('451', '4.3.0 Connection failed')
+            self._fail_request(result, reply)
+
+    def _fail_request(self, result, reply):
+        # The attempt must always end with a result or a relay error.
+        if self.conn:
+            self.conn.close()
+            self.conn = None
+        if not result.ready():
+            result.set_exception(SmtpRelayError.factory(reply))
+
+    def _send_request(self, method, result, envelope):
+        assert self.conn is not None
         with gevent.Timeout(self.relay.timeout):
             msg_headers, msg_body = envelope.flatten()
             headers = self._build_headers(envelope, msg_headers, msg_body)
